@@ -90,6 +90,9 @@ def repo_clean():
 def evaluate(sdir, checks, tier="quick"):
     sdir = os.path.abspath(sdir)
     meta = json.load(open(os.path.join(sdir, "meta.json")))
+    if meta.get("obsolete"):
+        print(os.path.basename(sdir), "obsolete:", meta["obsolete"][:100])
+        return 0
     prop = meta["property"]
     checks = checks or [prop]
     patch = os.path.join(sdir, "patch.diff")
